@@ -10,6 +10,7 @@
    Statements only; proofs are in Proofs/CanonWalk.v (walk invariant), Proofs/Coverage.v (the walks visit the
    whole group) and Proofs/CanonOrbit.v (idempotence, same representative). *)
 From Coq Require Import List NArith Bool.
+From V Require Proofs.GrayAll Proofs.CanonAllN.
 From V Require Import Base.Res Model.Kernels Model.Canon Spec.Bfun Spec.Transform Proofs.Order Proofs.ActGroup
   Proofs.CanonWalk Proofs.CanonOrbit.
 Import ListNotations.
@@ -114,3 +115,16 @@ Print Assumptions C04_n_idempotent.
 Print Assumptions C04_npn_same_rep_iff.
 Print Assumptions C04_p_same_rep_iff.
 Print Assumptions C04_n_same_rep_iff.
+
+(* ---- N canonization for every n <= 31 (see Properties/C05.v, C05_n_general) *)
+Theorem C04_n_min_general : forall n t, (n <= 31)%nat -> wf n t ->
+  exists c mask, n_canonization n t = Ok (c, mask) /\
+    forall mask' c', mask' < 2 ^ (N.of_nat n + 1) -> wf n c' ->
+      (forall y, y < 2 ^ N.of_nat n -> val c' y = act n (identity n) mask' (val t) y) -> big c <= big c'.
+Proof. exact V.Proofs.CanonAllN.C04_n_min_general. Qed.
+Theorem C04_n_same_rep_iff_general : forall n t1 t2, (n <= 31)%nat -> wf n t1 -> wf n t2 ->
+  exists c1 m1 c2 m2, n_canonization n t1 = Ok (c1, m1) /\ n_canonization n t2 = Ok (c2, m2) /\
+    (c1 = c2 <-> equivN n (val t1) (val t2)).
+Proof. exact V.Proofs.CanonAllN.C04_n_same_rep_iff_general. Qed.
+Print Assumptions C04_n_min_general.
+Print Assumptions C04_n_same_rep_iff_general.
